@@ -522,6 +522,103 @@ example : parseStatementText "DROP DATABASE foo".toList [] [] = .ok (.dropDataba
   · exact legal_of_spaced _ _ _ _ (by decide +kernel) (by decide +kernel) (by decide +kernel)
       (fun q _ => q.2.endOK_eof)
 
+/-! ## `ParseQuery` on rendered statements: the model's real `parseQuery`
+
+`parseQuery_split` above is about an abstract loop over token lists. Here the loop is the model's
+`queryLoop` (`Model/ParserStmt.lean`, the model of `Parser.ParseQuery`) run by `parseQueryText` on a
+raw text. The text is `sep₀ stmt₁ sep₁ stmt₂ … stmtₙ sepₙ`: every `stmtᵢ` a legal rendering
+(`Spelled`, `Spelled.OK`: any of the rendered families, any keyword case, quoting, gaps) and every
+separator a run of `;`, each `;` preceded by any gap (`semisText`; the gap behind the last `;` of a
+separator is the leading gap of the next statement, the gap behind the very last one is `g`).
+`queryText items K` = the items (`(;-run, statement)` pairs) followed by `K`; `QueryLegal`: all gaps
+well formed, every statement of a proved family and `Legal` in front of what follows it; `SepOK
+true items`: every statement but the first has a non-empty `;` run in front of it. -/
+
+open Render RenderQuery in
+/-- **C16 (a), rendered statements.** A query text consisting of legal renderings of statements of
+the proved families, separated by one or more semicolons with arbitrary gaps (whitespace, comments)
+between and around them, optionally led and trailed by semicolons and gaps, parses (`ParseQuery`) to
+exactly those statements, in order. Empty statements (`;;`), a trailing semicolon, trailing
+whitespace and comments are ignored. Any number of statements (`items = []`: the empty query). -/
+theorem parseQuery_rendered_split (text : Str) (params : List (Str × BoundValue)) (tbl : List (Char × Char))
+    (items : List Item) (gs : List Render.Gap) (g : Render.Gap)
+    (hfold : foldCR text = queryText items (semisText gs ++ gapText g))
+    (hL : QueryLegal items (tailText gs g)) (hsep : SepOK true items) (hgs : ∀ h ∈ gs, gapOK h = true)
+    (hg : gapOK g = true) : parseQueryText text params tbl = .ok (items.map (·.2.stmt)) :=
+  parseQueryText_rendered text params tbl items gs g hfold hL hsep hgs hg
+
+open Render RenderQuery in
+/-- **Each statement alone.** The text of one rendered statement (followed by any gap) parses as a
+query to the one-element list with that statement, and `ParseStatement` on it gives that statement:
+the result for a whole query (`parseQuery_rendered_split`) is the concatenation of the results of
+its statements parsed alone. -/
+theorem parseQuery_rendered_single (text : Str) (params : List (Str × BoundValue)) (tbl : List (Char × Char))
+    (x : Spelled) (hx : x.OK) (g : Render.Gap) (hg : gapOK g = true)
+    (hfold : foldCR text = Render.render x.pieces ++ gapText g) (hL : Legal x.pieces (gapText g ++ [eofRune])) :
+    parseQueryText text params tbl = .ok [x.stmt] ∧ parseStatementText text params tbl = .ok x.stmt := by
+  constructor
+  · refine parseQueryText_rendered text params tbl [([], x)] [] g ?_ ⟨by simp, hx, ?_, trivial⟩
+      ⟨Or.inl rfl, trivial⟩ (by simp) hg
+    · rw [hfold]; simp [queryText, semisText]
+    · simpa [queryText, tailText, semisText] using hL
+  · exact hx.parseStatementText text params tbl (gapText g) hfold hL
+      (fun t ht => nextNot_gap_eof g t hg (clauseOpeners_ne t (hx.stopKw t ht)).2)
+
+open Render RenderQuery in
+/-- **C16 (a), missing separator.** After one or more well-separated rendered statements, a further
+rendered statement `y` separated from the last one only by a gap (no `;`) makes `ParseQuery` fail
+with `found <first keyword of y>, expected ;` at that keyword's position — whatever follows (`k'`). -/
+theorem parseQuery_rendered_missing_separator (text : Str) (params : List (Str × BoundValue))
+    (tbl : List (Char × Char)) (items : List Item) (hne : items ≠ []) (y : Spelled) (hy : y.OK) (k' : Str)
+    (hfold : foldCR text = queryText items (Render.render y.pieces ++ k'))
+    (hL : QueryLegal items (Render.render y.pieces ++ (k' ++ [eofRune]))) (hsep : SepOK true items)
+    (hLy : Legal y.pieces (k' ++ [eofRune])) :
+    ∃ pos, parseQueryText text params tbl = .error (.err (.found (y.toks.headD .ILLEGAL).str [[';']] pos)) :=
+  parseQueryText_missing_stmt text params tbl items hne y hy k' hfold hL hsep hLy
+
+open Render RenderQuery in
+/-- The same for any token: after well-separated rendered statements, any legal piece `p` (keyword,
+name, string, number, `=`, `,`) that follows the last statement without a `;` and is not the opener
+of an optional clause of that statement is `found <p>, expected ;`. -/
+theorem parseQuery_rendered_missing_token (text : Str) (params : List (Str × BoundValue)) (tbl : List (Char × Char))
+    (items : List Item) (hne : items ≠ []) (g : Render.Gap) (p : Piece) (k' : Str)
+    (hfold : foldCR text = queryText items (Render.render [(g, p)] ++ k'))
+    (hL : QueryLegal items (Render.render [(g, p)] ++ (k' ++ [eofRune]))) (hsep : SepOK true items)
+    (hp : Legal [(g, p)] (k' ++ [eofRune])) (hstop : ∀ y, items.getLast? = some y → p.tok ∉ y.2.stop) :
+    ∃ pos, parseQueryText text params tbl = .error (.err (.found (tokstr p.tok p.lit) [[';']] pos)) :=
+  parseQueryText_missing text params tbl items hne g p k' hfold hL hsep hp hstop
+
+section examples
+open Render RenderQuery
+
+/-- Non-vacuity of `parseQuery_rendered_split`: `show databases ; /* c */ ;⏎ DROP DATABASE "a b" -- bye⏎ ;`
+— an empty statement, a block comment between two semicolons, a line comment before the trailing
+semicolon — parses to the two statements. -/
+example : parseQueryText "show databases ; /* c */ ;\n DROP DATABASE \"a b\" -- bye\n ;".toList [] [] =
+    .ok [.showDatabases, .dropDatabase "a b".toList] := by
+  refine parseQuery_rendered_split _ [] []
+    [([], exShow), ([[.ws ' '], [.ws ' ', .block " c ".toList, .ws ' ']], exDrop)]
+    [[.ws ' ', .line " bye".toList, .ws ' ']] [] (by decide +kernel) ?_ ⟨Or.inl rfl, Or.inr (by simp), trivial⟩
+    (by decide +kernel) rfl
+  refine ⟨by simp, exShow_ok, ?_, by decide +kernel, exDrop_ok, ?_, trivial⟩
+  · exact legal_of_spaced _ _ _ _ (by decide +kernel) (by decide +kernel) (by decide +kernel)
+      (fun q _ => q.2.endOK_sepHead ⟨' ', _, rfl, by decide⟩)
+  · exact legal_of_spaced _ _ _ _ (by decide +kernel) (by decide +kernel) (by decide +kernel)
+      (fun q _ => q.2.endOK_sepHead ⟨' ', _, rfl, by decide⟩)
+
+/-- Non-vacuity of `parseQuery_rendered_missing_separator`: `show databases⏎ DROP DATABASE "a b"` is
+rejected with `found DROP, expected ;`. -/
+example : ∃ pos, parseQueryText "show databases\n DROP DATABASE \"a b\"".toList [] [] =
+    .error (.err (.found "DROP".toList [[';']] pos)) := by
+  refine parseQuery_rendered_missing_separator _ [] [] [([], exShow)] (by simp) exDrop exDrop_ok []
+    (by decide +kernel) ⟨by simp, exShow_ok, ?_, trivial⟩ ⟨Or.inl rfl, trivial⟩ ?_
+  · exact legal_of_spaced _ _ _ _ (by decide +kernel) (by decide +kernel) (by decide +kernel)
+      (fun q _ => q.2.endOK_sepHead ⟨'\n', _, rfl, by decide⟩)
+  · exact legal_of_spaced _ _ _ _ (by decide +kernel) (by decide +kernel) (by decide +kernel)
+      (fun q _ => q.2.endOK_eof)
+
+end examples
+
 /-! ## Negative examples: where the side conditions bite (kernel-checked) -/
 
 /-- Inside a string literal the gap is not at a token boundary, and indeed replacing the
